@@ -115,6 +115,30 @@ def rand_mapping(rng, otel=False, allow_root_array=False):
     return m
 
 
+_PENDING = []
+
+
+def next_mapping(rng, **kw):
+    """rand_mapping, except that 30% of the mappings with a key/value lookup are followed, as the very next mapping, by a copy
+    whose key values are different (same paths, same types): anything the tool keeps between two mappings shows"""
+    import copy as _copy
+    if _PENDING:
+        return _PENDING.pop()
+    m = rand_mapping(rng, **kw)
+
+    def swap(kv):
+        if isinstance(kv, list):
+            return [swap(x) for x in kv]
+        return None if kv is None else rng.choice([k for k in KEY_VALUES if k != kv])
+    if any("key_value" in f and any(k is not None for k in _flat(f["key_value"])) for f in m.values()) and rng.random() < 0.3:
+        m2 = _copy.deepcopy(m)
+        for f in m2.values():
+            if "key_value" in f:
+                f["key_value"] = swap(f["key_value"])
+        _PENDING.append(m2)
+    return m
+
+
 def _flat(x):
     if isinstance(x, list):
         for y in x:
